@@ -803,11 +803,15 @@ pub(super) fn bl(
         // get operands
         let dst = operand_load(block, &instruction.operands()[0], 64)?;
 
+        // the target is read before the link register is written (blr x30)
+        let target = temp0(instruction, 64);
+        block.assign(target.clone(), dst);
+
         block.assign(
             scalar!("x30"),
             il::expr_const(instruction.address().wrapping_add(4), 64),
         );
-        block.branch(dst);
+        block.branch(il::Expression::Scalar(target));
 
         block.index()
     };
@@ -1234,12 +1238,18 @@ pub(super) fn nop(
 pub(super) fn ret(
     instruction_graph: &mut il::ControlFlowGraph,
     _successors: &mut [(u64, Option<il::Expression>)],
-    _instruction: &bad64::Instruction,
+    instruction: &bad64::Instruction,
 ) -> Result<()> {
     let block_index = {
         let block = instruction_graph.new_block().unwrap();
 
-        block.branch(expr!("x30"));
+        // "ret" returns through x30, "ret xN" through the named register
+        let dst = match instruction.operands().first() {
+            Some(operand) => operand_load(block, operand, 64)?,
+            None => expr!("x30"),
+        };
+
+        block.branch(dst);
 
         block.index()
     };
